@@ -17,8 +17,24 @@ def run(ctx):
 
     conn_common.dedicated(ctx, "c06", [("MC_Connection_hello.cfg", {})], build)
     conn_common.run_general_property(ctx)
+    # client level: the expected name is a property of the APIClient that may be set / changed / cleared at any time
+    # (before start, between the two phases, between sessions); Client.tla: exp / hn / nexp, NameBad
+    from vf import clientsim
+    from vf.props import c19
+
+    res = c19.run_family(ctx, "client_names", clientsim.names_family(c19.CFGS))
+    ctx.evaluations += res["n"]
+    ctx.distinct |= {("client_names", i) for i in range(res["n"])}
+    ctx.extra["reached_client_names"] = res["reach"]
+    for f in res["findings"]:
+        ctx.violation(f"Client/client_names/{f['cause']}/{'+'.join(f['fields'])}", {"kind": "client-trace", "family": "client_names", **f})
     ctx.assumptions.append("an empty / absent device name is accepted even when a name is expected (LegacyNoName reading, DESIGN 6)")
 
 
 def replay(ctx, case):
+    if case.get("kind") == "client-trace":
+        from vf.props import c19
+
+        c19.replay(ctx, case)
+        return
     conn_common.replay_case(ctx, case)
